@@ -1,6 +1,6 @@
 """C01 — Markovian SIR simulators sample the exact SIR chain (Gillespie_SIR tape correspondence + exact law;
 fast_SIR: see fastsir.py)."""
-import common, gillcheck
+import common, gillcheck, c11
 
 
 def run(ctx):
@@ -10,3 +10,5 @@ def run(ctx):
     if not ctx.thorough:
         cases = ctx.rng.sample(cases, min(len(cases), 150))
     gillcheck.law_check(ctx, drv, False, cases, "Gillespie_SIR")
+    # fast_SIR on both dispatch paths: first-passage percolation of the delays/durations it drew (shared with C11)
+    c11.fast_sir(ctx, drv)
